@@ -55,7 +55,7 @@ HintMap(pp, qp) ==
 IsKernelOp(c) == c.op \notin {"stamp", "more_props"}
 
 (* the slot map a call induces where the property leaves it open           *)
-Renumbers(pre, c) == IsDelete(c) \/ IsGC(pre, c)
+Renumbers(pre, c) == IsDelete(c) \/ IsGC(pre, c) \/ c.op = "status_gc"
 
 (* all tracked properties follow the map g                                 *)
 PropsFollow(pre, post, pp, qp, g, allSlots) ==
@@ -106,8 +106,10 @@ LineCheck(i, tainted) ==
         ELSE IF Want("C02") /\ (qp.genus # GenusDef(post) \/ qp.needs_gc # NeedsGC(post)) THEN "C02:GenusOrNeedsGC"
         ELSE IF Want("C02") /\ kern /\ IsDelete(c) /\ ~relH THEN "C02:DeleteRel"
         ELSE IF Want("C04") /\ kern /\ IsGC(pre, c) /\ ~relH THEN "C04:GCRel"
+        ELSE IF Want("C04") /\ kern /\ c.op = "status_gc" /\ ~StatusGCRel(pre, c, post, g, ln.rl) THEN "C04:StatusGCRel"
         ELSE IF Want("C17") /\ kern /\ IsSwap(c) /\ ~relM THEN "C17:SwapRel"
         ELSE IF Want("C11") /\ kern /\ c.op \in {"add_vertex", "add_edge", "add_face", "add_cell"} /\ ~relM THEN "C11:AddRel"
+        ELSE IF (Want("C08") \/ Want("C11")) /\ kern /\ c.op = "add_face_v" /\ ~relM THEN "C08:AddFaceFromVertices"
         ELSE IF Want("STEP") /\ kern /\ ~relH THEN "STEP:" \o c.op
         ELSE IF Want("C03") /\ hasP /\ kern /\ (relH \/ ~Renumbers(pre, c)) /\ ~PropsFollow(pre, post, pp, qp, g, IsSwap(c))
              THEN "C03:PropsFollow"
